@@ -61,11 +61,11 @@ Definition c06_bad_cfg : config :=
                    stop_style := StopNonBlocking; run_exit := ExitOnSignal; held_sub := false |} ];
      startup_may_fire := false; shutdown_may_fire := false |}.
 Definition c06_bad_sched : list label :=
-  [LLaunch 0; LRunStore 0; LRunCall 0; LMonSub 0; LMonRecv 0; LPoll 0 true; LGateDecide 0;
+  [LRunEnter; LRunEntered; LLaunch 0; LRunStore 0; LRunCall 0; LMonSub 0; LMonRecv 0; LPoll 0 true; LGateDecide 0;
    LCall 1 OpShutdown; LCallerGo 1; LStopCall 0; LEmit 0 4; LEmit 0 5; LRunRet 0 None; LStopRet 0;
    LMonRecv 0; LSdCancel; LStmExit; LSdWgDone; LReapCtx; LMainShutdown; LMainReturn ResNil].
 Example C06_witness_before_restore :
-  exists s1, run (step c06_bad_cfg) (init c06_bad_cfg) (firstn 15 c06_bad_sched) = Some s1 /\
+  exists s1, run (step c06_bad_cfg) (init c06_bad_cfg) (firstn 17 c06_bad_sched) = Some s1 /\
              smap_at s1 0 = Some 4 /\ fin_at s1 0 = Some 5.
 Proof. eexists. split; [vm_compute; reflexivity|]. split; reflexivity. Qed.
 Example C06_witness_repaired :
@@ -88,7 +88,7 @@ Definition c06_cfg : config :=
                    stop_style := StopNonBlocking; run_exit := ExitOnSignal; held_sub := true |} ];
      startup_may_fire := false; shutdown_may_fire := false |}.
 Definition c06_sched : list label :=
-  [LLaunch 0; LRunStore 0; LRunCall 0; LEmit 0 2; LSubRel 0; LMonSub 0; LMonRecv 0; LMonBcast 0].
+  [LRunEnter; LRunEntered; LLaunch 0; LRunStore 0; LRunCall 0; LEmit 0 2; LSubRel 0; LMonSub 0; LMonRecv 0; LMonBcast 0].
 Example C06_ex_late_subscription :
   exists s, run (step c06_cfg) (init c06_cfg) c06_sched = Some s /\
             smap_at s 0 = Some 2 /\ cur_at s 0 = 2 /\ ran (rn_at s 0).
@@ -121,7 +121,7 @@ Print Assumptions C06_subscriber.
 Print Assumptions C06_subscriber_drained.
 
 (* non-vacuity: a subscriber follows a state change of a running runnable *)
-Definition c06_sub_pre : list label := [LLaunch 0; LRunStore 0; LRunCall 0; LMonSub 0; LMonRecv 0; LSubscribe 7].
+Definition c06_sub_pre : list label := [LRunEnter; LRunEntered; LLaunch 0; LRunStore 0; LRunCall 0; LMonSub 0; LMonRecv 0; LSubscribe 7].
 Definition c06_sub_run : list label :=
   [LSubRecv 7 [Some 0]; LEmit 0 2; LMonRecv 0; LMonBcast 0; LSubRecv 7 [Some 2]; LPoll 0 true; LGateDecide 0].
 Example C06_ex_subscriber :
